@@ -210,11 +210,20 @@ func runClean(c cliCase, r cliRun, file string, head bool) (map[string]outRec, s
 	return out, desc, nil
 }
 
+// tail keeps the last n bytes of the error stream and, for a Go runtime crash,
+// the lines announcing it (they come first, before the stacks).
 func tail(b []byte, n int) string {
+	head := ""
+	for _, mark := range []string{"panic:", "fatal error:"} {
+		if i := bytes.Index(b, []byte(mark)); i >= 0 && len(b)-i > n {
+			head = string(b[i:min(len(b), i+600)]) + "\n[...]\n"
+			break
+		}
+	}
 	if len(b) > n {
 		b = b[len(b)-n:]
 	}
-	return strings.ReplaceAll(string(b), "\r", "\n")
+	return strings.ReplaceAll(head+string(b), "\r", "\n")
 }
 
 // checkRecordConsistency: what the attribute names say about one output record.
